@@ -72,6 +72,9 @@ Body(zz) ==
     [] zz.shape = "two"   -> ZoneAssign(0, "Z", zz) \o ZoneAssign(0, "Y", Second) \o << <<"B", "::", "2">> >>
     [] zz.shape = "tworev" -> ZoneAssign(0, "Y", Second) \o ZoneAssign(0, "Z", zz) \o << <<"B", "::", "2">> >>
     [] zz.shape = "three" -> << <<"BLK", ":">> >> \o ZoneAssign(1, "Y", Second) \o ZoneAssign(1, "Z", zz) \o << <<"  ", "B", "::", "2">> >> \o ZoneAssign(0, "X", Second)
+    [] zz.shape = "closedeep" ->       \* the closing fence sits 4 / 6 columns deeper than the opening one (a fence closes at any indentation)
+         << <<"A", "::", "1">>, <<"Z", "::">>, Ticks(zz.fence) \o TagChunks(zz.tag) >> \o [j \in 1..Len(zz.ls) |-> LineChunks(zz.ls[j])]
+         \o << Pad(IF zz.fence = 3 THEN 4 ELSE 6) \o Ticks(zz.fence), <<"B", "::", "[", "x", ",", "y", "]">> >>
     [] zz.shape = "cmt"   -> << <<"//", " ", "before">> >> \o ZoneAssign(0, "Z", zz) \o << <<"//", " ", "after">>, <<"B", "::", "2">> >>
     [] OTHER (* "last" : zone is the last thing, no END, no final newline *) -> << <<"A", "::", "1">> >> \o ZoneAssign(0, "Z", zz)
 
@@ -85,7 +88,7 @@ ExpectedZones(zz) == IF zz.shape = "two" THEN <<ZoneAbs(zz), ZoneAbs(Second)>>
                      ELSE IF zz.shape = "three" THEN <<ZoneAbs(Second), ZoneAbs(zz), ZoneAbs(Second)>> ELSE <<ZoneAbs(zz)>>
 (* neighbours: <<depth, key>> of every node that is not the zone, in order; values are checked by C02 *)
 ExpectedOthers(zz) ==
-  CASE zz.shape = "top"   -> << <<0, "A">>, <<0, "Z">>, <<0, "B">> >>
+  CASE zz.shape \in {"top", "closedeep"} -> << <<0, "A">>, <<0, "Z">>, <<0, "B">> >>
     [] zz.shape = "d1"    -> << <<0, "BLK">>, <<1, "A">>, <<1, "Z">>, <<1, "B">>, <<0, "C">> >>
     [] zz.shape = "d3"    -> << <<0, "BLK">>, <<1, "IN">>, <<2, "DEEP">>, <<3, "Z">>, <<3, "B">>, <<1, "C">> >>
     [] zz.shape = "sec"   -> << <<0, "S">>, <<1, "Z">>, <<1, "B">>, <<0, "T">> >>
